@@ -224,6 +224,17 @@ class chunks(object):
         raChunkMax = np.zeros(decChunkMax-decChunkMin+1, dtype='i4')
         for i in range(decChunkMin, decChunkMax+1):
             cosDecMin = self.cosDecMin(i)
+            #
+            # Largest difference in ra at which a point of this declination
+            # slice can still be within marginSize of (ra, dec); it follows
+            # from sin(d/2)**2 >= cos(dec1)*cos(dec2)*sin(dra/2)**2.
+            #
+            sinHalf = (np.sin(np.deg2rad(0.5*marginSize)) /
+                       np.sqrt(cosDecMin*np.cos(np.deg2rad(dec))))
+            if sinHalf < 1.0:
+                raMargin = 2.0*np.rad2deg(np.arcsin(sinHalf))
+            else:
+                raMargin = 360.0
             raChunkMin[i-decChunkMin] = int(np.floor((ra - self.raBounds[i][0]) *
                                                      float(self.nRa[i]) /
                                                      (self.raBounds[i][self.nRa[i]] - self.raBounds[i][0])))
@@ -237,7 +248,7 @@ class chunks(object):
             keepGoing = True
             while keepGoing and raCheck > -1:
                 if raCheck >= 0 and raCheck < self.nRa[i]:
-                    keepGoing = (ra - self.raBounds[i][raCheck])*cosDecMin < marginSize
+                    keepGoing = ra - self.raBounds[i][raCheck] < raMargin
                 else:
                     keepGoing = False
                 if keepGoing:
@@ -247,7 +258,7 @@ class chunks(object):
             keepGoing = True
             while keepGoing and raCheck < self.nRa[i]:
                 if raCheck >= 0 and raCheck < self.nRa[i]:
-                    keepGoing = (self.raBounds[i][raCheck+1]-ra)*cosDecMin < marginSize
+                    keepGoing = self.raBounds[i][raCheck+1] - ra < raMargin
                 else:
                     keepGoing = False
                 if keepGoing:
